@@ -266,6 +266,9 @@ def run(rep, tier):
         c04.update_coverage(rep, us[s_.label], h, hashes.HASHES[h])
         c04.dispatch_rule(rep, us[s_.label], own)
     rep.floor("per-block state copies", nls, 2)
+    # the carry chains of the multi-word adders (Streebog's checksum and counter, the SHA length counters): C04's rule
+    from props import c04_more
+    c04_more.run(rep, specs, us, tier)
     u = us["radius.h"]
     nr = 0
     for fn in u.function_list:
